@@ -139,7 +139,9 @@ impl PropertyValue {
     }
 
     /// Returns the number of bytes, including any padding bytes, that will be
-    /// written by the `write()` method.  Always returns a multiple of four.
+    /// written by the `write()` method when strings are encoded as UTF-8.
+    /// Always returns a multiple of four.
+    #[allow(dead_code)]
     fn size_including_padding(&self) -> u32 {
         match self {
             PropertyValue::Empty => 4,
@@ -334,12 +336,22 @@ impl PropertySet {
         writer.write_u32::<LittleEndian>(48)?; // Section offset
 
         // Section:
+        // Serialize the values first, so that the offsets and the section
+        // size are measured on the very bytes that get written (the encoded
+        // length of a string depends on the code page).
+        let mut encoded_values: Vec<Vec<u8>> =
+            Vec::with_capacity(self.properties.len());
+        for (_, value) in self.properties.iter() {
+            let mut encoded = Vec::<u8>::new();
+            value.write(&mut encoded, self.codepage)?;
+            encoded_values.push(encoded);
+        }
         let num_properties = self.properties.len() as u32;
         let mut section_size: u32 = 8 + 8 * num_properties;
         let mut property_offsets: Vec<u32> = Vec::new();
-        for (_, value) in self.properties.iter() {
+        for encoded in encoded_values.iter() {
             property_offsets.push(section_size);
-            section_size += value.size_including_padding();
+            section_size += encoded.len() as u32;
         }
         writer.write_u32::<LittleEndian>(section_size)?;
         writer.write_u32::<LittleEndian>(num_properties)?;
@@ -347,8 +359,8 @@ impl PropertySet {
             writer.write_u32::<LittleEndian>(name)?;
             writer.write_u32::<LittleEndian>(property_offsets[index])?;
         }
-        for (_, value) in self.properties.iter() {
-            value.write(writer.by_ref(), self.codepage)?;
+        for encoded in encoded_values.iter() {
+            writer.write_all(encoded)?;
         }
         Ok(())
     }
